@@ -22,12 +22,20 @@ More == l < Len(T.events)
 CmdIn    == [lines |-> Ev.lines, extra |-> Ev.extra]
 SearchIn == [lines |-> Ev.lines, q |-> Ev.q]
 
+(* R4: the model's calendar against the environment's (datetime.toordinal, recorded by the driver for the  *)
+(* sought time and for every stamped line as rendered, a year-less stamp in the sought year)              *)
+CalendarAgrees ==
+    LET in == Ev.inp IN
+    /\ AbsDay(in.T) = Ev.tord
+    /\ \A i \in DOMAIN in.lines : in.lines[i].has =>
+          AbsDay(At(IF in.hy THEN in.lines[i].y ELSE in.T.y, in.lines[i])) = Ev.ords[i]
+
 Accepts ==
     CASE Ev.ev = "cmd"    -> Ev.outcome = CmdRef(CmdIn).outcome /\ Ev.seen = CmdRef(CmdIn).seen
       [] Ev.ev = "doc"    -> /\ Ev.outcome \in Allowed(Ev.fmt, DocClass(Ev.doc), Ev.noise)
                              /\ Ev.outcome = "value" => SameVal(Ev.value, Ev.doc)
       [] Ev.ev = "search" -> Ev.exc = "" /\ Ev.res = ViaRef(Ev.via, SearchIn)
-      [] Ev.ev = "after"  -> Ev.exc = "" /\ Ev.res = AfterRef(Ev.inp)
+      [] Ev.ev = "after"  -> AdmitsLog(Ev.inp) /\ CalendarAgrees /\ Ev.exc = "" /\ Ev.res = AfterRef(Ev.inp)
       [] OTHER -> FALSE
 
 (* ---- name the failing clause and the abstract features of the input ---- *)
@@ -71,11 +79,14 @@ LineKind(in, i) ==
     ELSE LET e == Eff(ln, in.T, in.hy) IN
          (IF Key(e) = Key(in.T) THEN "stamp-equal" ELSE IF Key(e) > Key(in.T) THEN "stamp-after" ELSE "stamp-before")
          \o (IF e.y < in.T.y /\ ~in.hy THEN "-previous-year" ELSE IF e.y > in.T.y /\ ~in.hy THEN "-next-year" ELSE "")
+         \o (IF ~in.hy /\ e.y # in.T.y /\ (Leap(e.y) \/ Leap(in.T.y)) THEN "-leap-year" ELSE "")
 
 DiagAfter ==
     LET in == Ev.inp  ref == AfterRef(in)
         feat == B(in.hy, ":with-year", ":without-year") \o B(in.filt, ":filtered", "") IN
-    IF Ev.exc # "" THEN "AfterExact" \o feat \o ":exception"
+    IF ~AdmitsLog(in) THEN "machinery:log-not-admitted"
+    ELSE IF ~CalendarAgrees THEN "machinery:calendar-disagrees-with-datetime"
+    ELSE IF Ev.exc # "" THEN "AfterExact" \o feat \o ":exception"
     ELSE IF \E x \in Rng(ref) : x \notin Rng(Ev.res)
       THEN "AfterExact" \o feat \o ":missing:" \o LineKind(in, CHOOSE x \in Rng(ref) : x \notin Rng(Ev.res))
     ELSE IF \E x \in Rng(Ev.res) : x \notin Rng(ref)
